@@ -15,7 +15,9 @@ TREE = {'top': ['clk', 'a', 'b'], 'top.u': ['a', 'q', 'r_valid', 'r_ready', 'w_v
 
 
 def gen_case(rng, cid):
-    text, info = gen.simple_trace(rng, n=rng.randrange(2, 8), scopes=TREE)
+    rooted = rng.random() < 0.5
+    # half of the traces also have signals outside every scope, named like signals inside the scopes
+    text, info = gen.simple_trace(rng, n=rng.randrange(2, 8), scopes=dict(TREE, **{'': ['a', 'valid']}) if rooted else TREE)
     if rng.random() < 0.3 and info['n'] >= 3:
         # two samples with the same timestamp: still two indices, each with its own values
         k = rng.randrange(1, info['n'] - 1)
@@ -56,6 +58,16 @@ def gen_case(rng, cid):
     cmds.append(['evalstr', '111', listed])
     probes.append(('listed', len(cmds) - 1, [n for n, _ in defs]))
 
+    if rooted:
+        # defined at top level with ~ and #: the references are fixed there (to the signals outside every scope), so the
+        # signal reads the same from inside any scope or group
+        cmds.append(['evalstr', '111', '(defsig rt (+ ~a 1))'])
+        cmds.append(['evalstr', '111', '(defsig rg (+ #valid 2))'])
+        defs.append(('rt', '(+ a 1)'))
+        defs.append(('(in-scope "top" rt)', '(+ a 1)'))
+        defs.append(('(in-scope "top.u" rt)', '(+ a 1)'))
+        defs.append(('(in-group "top.u.r_" rg)', '(+ valid 2)'))
+        defs.append(('(in-scope "top.u" (in-group "top.u.w_" (+ rt rg)))', '(+ (+ a 1) (+ valid 2))'))
     n = info['n']
     cur = [0]
 
